@@ -60,6 +60,8 @@ type Sess struct {
 	// one Config object per option set and process instead of one per call
 	ShareConfigs bool
 	cfgs         map[string]*snaps.Config
+	// options applied to a zero-value snaps.Config instead of going through WithConfig
+	ZeroConfigs bool
 }
 
 const defaultBase = "sess_test" // base name of this file: what Filename defaults to
@@ -122,6 +124,13 @@ func (s *Sess) buildConfig(o Op) *snaps.Config {
 	}
 	if o.Upd != nil {
 		opts = append(opts, snaps.Update(*o.Upd))
+	}
+	if s.ZeroConfigs {
+		var c snaps.Config
+		for _, f := range opts {
+			f(&c)
+		}
+		return &c
 	}
 	return snaps.WithConfig(opts...)
 }
